@@ -6,6 +6,14 @@
 (* a reduced vocabulary is a distinct state: all paths.                        *)
 EXTENDS Carbons, Json, CSV, IOUtils
 
+\* jidcfg of a behaviour = the JID the client is configured with at the *start* (Reconfigure steps change it)
+StartJid == IF \E k \in 1..Len(hist') : hist'[k].a = "Reconfigure"
+            THEN LET k == CHOOSE k \in 1..Len(hist') : hist'[k].a = "Reconfigure" /\ \A m \in 1..(k-1) : hist'[m].a # "Reconfigure"
+                 IN hist'[k].from
+            ELSE jidcfg'
+
 EmitBehaviour ==
-    CSVWrite("%1$s", <<ToJson([gen |-> gen', jidcfg |-> jidcfg', steps |-> hist'])>>, IOEnv.QXV_GEN)
+    CSVWrite("%1$s", <<ToJson([gen |-> gen', jidcfg |-> StartJid, steps |-> hist'])>>, IOEnv.QXV_GEN)
+
+EmitReconfBehaviour == ReconfShape /\ EmitBehaviour
 =============================================================================
